@@ -17,6 +17,15 @@ CHECKS = {
             "IANA registry copy and an independent structural name parser; the space is finite so this run is complete for the function, and the "
             "same contract stays installed while the end-to-end checks run.",
             "trusted: the frozen registry copy (cross-checked at setup against scapy's and dpkt's copies) and the harness's name parser", "3/C14"),
+    "C16": ("exploration", "runtime monitor comparing the real get_full_packet_number with an integer transcription of RFC 9000 A.3 (direct state-driven calls exhaustive around every window boundary + interleaved histories)",
+            "Real QuicSession objects are driven with stub packets over boundary-exhaustive (largest, length, truncated) grids for all six spaces and through "
+            "interleaved histories with gaps and reordering; each result (the AEAD nonce actually used) is compared with the RFC value. Held on the enumerated grid, not proved for all 2^62 values.",
+            "trusted: the RFC transcription rfc_decode; per-space state is set through the session's own dictionaries", "3/C16"),
+    "C17": ("exploration", "runtime monitor on the real parse_frames: encoder ground-truth comparison + statement-count bound (sys.monitoring) on arbitrary bytes, exhaustive for length <= 2",
+            "Well-formed sequences of all 21 frame kinds with every varint width are compared field by field with the encoder's ground truth; termination on arbitrary "
+            "input is decided on logical steps (statement executions inside tlexport counted by sys.monitoring), exhaustively for all strings of length <= 2 and by "
+            "random/mutated strings up to 1500 bytes.",
+            "trusted: harness frame encoders (RFC 9000 sec. 19); the step bound is two orders of magnitude above observed maxima", "3/C17"),
 }
 
 NOT_YET = "check not built yet in this round (planned, see DESIGN.md section 3)"
